@@ -333,6 +333,124 @@ def replay_control(case=None, **kw):
   return False
 
 
+# ------------------------------------------------------------------ RNN wrapper
+class AccCell(nn.RNNCellBase):
+  """parameter-free cell: carry' = 2*carry + x, output = carry'"""
+
+  @property
+  def num_feature_axes(self):
+    return 1
+
+  def initialize_carry(self, rng, input_shape):
+    if sym.CONCRETE['on']:
+      import jax.numpy as jnp
+      return jnp.zeros(input_shape)
+    return symnp.JNP.zeros(input_shape)
+
+  def __call__(self, carry, x):
+    new = carry * 2 + x
+    return new, new
+
+
+class _ScanStub:
+  """flax.linen.transforms.scan replaced by its documented meaning: a Python loop
+  over `in_axes`, outputs stacked along `out_axes`"""
+
+  @staticmethod
+  def scan(fn, in_axes=0, out_axes=0, **kw):
+    def take(x, t):
+      key = [slice(None)] * x.ndim
+      key[in_axes] = t
+      return x[tuple(key)]
+
+    def stack(xs, axis):
+      if isinstance(xs[0], A):
+        return symnp.JNP.stack(xs, axis)
+      import jax.numpy as jnp
+      return jnp.stack(xs, axis)
+
+    def run(cell, carry, inputs):
+      T = inputs.shape[in_axes]
+      ys = []
+      for t in range(T):
+        carry, y = fn(cell, carry, take(inputs, t))
+        ys.append(y)
+      if isinstance(out_axes, tuple):
+        outs = tuple(stack([y[i] for y in ys], ax) for i, ax in enumerate(out_axes))
+      else:
+        outs = stack(ys, out_axes)
+      return carry, outs
+    return run
+
+
+def rnn_wrapper(which):
+  """nn.RNN over a parameter-free cell, symbolic per-row lengths: outputs at valid
+  positions and the returned final carry equal the Python loop over the valid
+  prefix (reversed within the valid length when reverse=True, outputs flipped
+  back when keep_order=True), for time_major both ways and return_carry given at
+  construction or at call time; padding never reaches a valid output / the carry"""
+  t0 = time.time()
+  cases = []
+  T, Bn = 3, 2
+  saved = LR.transforms
+  LR.transforms = _ScanStub
+  try:
+    with SymEnv():
+      L = A.sym('len', (Bn,), 'int')
+      extra = [z3.And(v.t >= 1, v.t <= T) for v in L.data]
+      for time_major, reverse, keep_order, rc_ctor in itertools.product(
+          (False, True), (False, True), (False, True), (False, True)):
+        if keep_order and not reverse:
+          continue
+        shape = (T, Bn, 1) if time_major else (Bn, T, 1)
+        x = A.sym('x', shape)
+        xa = lambda b, t: x.at((t, b, 0) if time_major else (b, t, 0))
+        rnn = nn.RNN(AccCell(), time_major=time_major, reverse=reverse,
+                     keep_order=keep_order, return_carry=rc_ctor)
+        if rc_ctor:
+          carry, outs = rnn.apply({}, x, seq_lengths=L)
+        else:
+          carry, outs = rnn.apply({}, x, seq_lengths=L, return_carry=True)
+        carry, outs = A.of(carry), A.of(outs)
+        want_c, valid_got, valid_want = [], [], []
+        for b in range(Bn):
+          per_len = {}
+          for ln in range(1, T + 1):
+            order = list(range(ln - 1, -1, -1)) if reverse else list(range(ln))
+            c = S(0)
+            ys = {}
+            for step, src in enumerate(order):
+              c = c * 2 + xa(b, src)
+              # position at which this step's output appears
+              pos = src if (reverse and keep_order) else step
+              ys[pos] = c
+            per_len[ln] = (c, ys)
+          val = None
+          for ln in range(1, T + 1):
+            v = _num(per_len[ln][0].t)
+            val = v if val is None else z3.If(L.at((b,)).t == ln, v, val)
+          want_c.append(S(val))
+          for t in range(T):
+            idx = (t, b, 0) if time_major else (b, t, 0)
+            inside = L.at((b,)).t > t
+            wv = None
+            for ln in range(t + 1, T + 1):
+              v = _num(per_len[ln][1][t].t)
+              wv = v if wv is None else z3.If(L.at((b,)).t == ln, v, wv)
+            zero = z3.RealVal(0)
+            valid_got.append(S(z3.If(inside, _num(outs.at(idx).t), zero)))
+            valid_want.append(S(z3.If(inside, wv if wv is not None else zero,
+                                      zero)))
+        tag = 'time_major=%s reverse=%s keep_order=%s return_carry@%s' % (
+            time_major, reverse, keep_order, 'ctor' if rc_ctor else 'call')
+        cases.append(('RNN final carry ' + tag, carry, A(want_c, (Bn, 1))))
+        cases.append(('RNN valid outputs ' + tag, A(valid_got, (len(valid_got),)),
+                      A(valid_want, (len(valid_want),))))
+  finally:
+    LR.transforms = saved
+  return _prove(cases, t0, extra)
+
+
 EXPLANATION = (
     'C13 slices (Engine C): attention masks as Boolean formulas; '
     'dot_product_attention_weights / dot_product_attention (Linen and NNX) equal '
@@ -344,8 +462,9 @@ EXPLANATION = (
 ASSUMPTIONS = (
     'floats as reals; exp / sigmoid / tanh / sqrt uninterpreted',
     'stepwise-decode == whole-sequence, masked-position non-interference through '
-    'finfo.min saturation, RNN / Bidirectional over nn.scan / nnx.scan and '
-    'ConvLSTMCell need real JAX floats/scan and are NOT covered',
+    'finfo.min saturation, Bidirectional, nnx.RNN and ConvLSTMCell are NOT '
+    'covered; nn.RNN is covered with flax.linen.transforms.scan replaced by a '
+    'Python loop (its documented meaning) over a parameter-free cell',
     'jax.core.get_opaque_trace_state compat shim installed by the harness process',
 )
 
@@ -368,6 +487,14 @@ def obligations(tier):
     obs.append(Ob('cell_step_' + nm, _fam('cells'), dict(which=I(w, w)), kind='smt', replay=replay_family,
                   split=('which',), timeout=900, funcs=F2,
                   bounds='batch 1, 3 input features, 2 hidden features'))
+  obs.append(Ob('rnn_wrapper_flags_and_lengths', _fam('rnn_wrapper'),
+                dict(which=I(0, 0)), kind='smt', replay=replay_family,
+                split=('which',), timeout=900,
+                funcs=qualnames(nn.RNN.__call__, LR.flip_sequences,
+                                LR._select_last_carry),
+                bounds='T=3, batch 2, symbolic lengths in [1,3], time_major x '
+                       'reverse x keep_order x return_carry at ctor/call; '
+                       'transforms.scan replaced by a Python loop'))
   obs.append(Ob('sequence_reindexing', _fam('sequences'), dict(which=I(0, 0)), kind='smt', replay=replay_family,
                 split=('which',), timeout=900, funcs=F3,
                 bounds='T=4, batch 2, symbolic lengths in [1,4], both time_major'))
